@@ -25,9 +25,11 @@ import (
 	"runtime"
 	"strings"
 	"sync"
+	"sync/atomic"
 	"syscall"
 	"time"
 
+	NoKV "github.com/feichai0017/NoKV"
 	"github.com/feichai0017/NoKV/utils"
 	"github.com/feichai0017/NoKV/vfs"
 
@@ -39,7 +41,7 @@ type Schedule struct {
 	ID    int    `json:"id"`
 	N     int    `json:"n"`     // contenders 1..N, each acquires once and releases
 	Steps []int  `json:"steps"` // contender to release, one gate-to-gate step each
-	Mode  string `json:"mode"`  // threads | procs | free
+	Mode  string `json:"mode"`  // threads | procs | free | db
 	Seed  int64  `json:"seed"`
 	Loops int    `json:"loops"` // free mode: acquire/release rounds per contender
 }
@@ -112,6 +114,89 @@ func runThreads(dir string, sc *Schedule, emit func(vt.Ev)) {
 	}
 	if !s.AllDone() {
 		vt.Fatal("schedule %d: contenders did not finish", sc.ID)
+	}
+}
+
+// ------------------------------------------------------------------ db mode
+// Contenders are whole databases: NoKV.Open on the same directory, a few writes, db.Close.  A database
+// holds the directory until it has finished working in it: the Release event is emitted when Close has
+// returned.  Gates inside Close (FaultFS hook of that database, on the closing goroutine only): before
+// the LOCK file is removed, and before the first operation on any other file after the LOCK file was
+// closed (a database that still has file work to do after giving up the lock is parked right there).
+func openDB(opt *NoKV.Options) (db *NoKV.DB, err error) {
+	defer func() {
+		if r := recover(); r != nil {
+			db, err = nil, fmt.Errorf("open panicked: %v", r)
+		}
+	}()
+	return NoKV.Open(opt), nil
+}
+
+func runDB(dir string, sc *Schedule, emit func(vt.Ev)) {
+	runtime.GOMAXPROCS(4)
+	defer runtime.GOMAXPROCS(1)
+	s := gate.New()
+	s.Patient = true
+	var dbs sync.Map
+	for t := 1; t <= sc.N; t++ {
+		t := t
+		s.Go(t, func() {
+			var closing, lockClosed atomic.Bool
+			opt := NoKV.NewDefaultOptions()
+			opt.WorkDir = dir
+			opt.MemTableSize = 1 << 20
+			opt.SSTableMaxSz = 1 << 20
+			opt.ValueLogFileSize = 1 << 20
+			opt.ValueThreshold = 1 << 20
+			opt.FS = vfs.NewFaultFS(vfs.OSFS{}, func(op vfs.Op, path string) error {
+				if !closing.Load() {
+					return nil
+				}
+				if id, ok := s.IsThread(); !ok || id != t {
+					return nil
+				}
+				switch {
+				case isLock(path) && op == vfs.OpRemove:
+					s.YieldPath("close.remove-lock", path)
+				case isLock(path) && op == vfs.OpFileClose:
+					lockClosed.Store(true)
+				case !isLock(path) && lockClosed.Load():
+					s.YieldPath("close.work-after-lock-release", path)
+				}
+				return nil
+			})
+			db, err := openDB(opt)
+			if err != nil {
+				emit(vt.Ev{"e": "Acquire", "t": t, "ok": false, "err": err.Error()})
+				return
+			}
+			dbs.Store(t, db)
+			emit(vt.Ev{"e": "Acquire", "t": t, "ok": true})
+			for i := 0; i < 20; i++ {
+				_ = db.Set([]byte(fmt.Sprintf("key-%d-%04d", t, i)), []byte("value"))
+			}
+			s.Yield("hold")
+			closing.Store(true)
+			emit(vt.Ev{"e": "CloseBegin", "t": t})
+			err = db.Close()
+			emit(vt.Ev{"e": "Release", "t": t}) // Close has returned: the database is done with the directory
+			emit(vt.Ev{"e": "Released", "t": t, "ok": err == nil})
+		})
+	}
+	step := func(t int) {
+		st := s.Step(t)
+		if st.State == gate.Stuck {
+			vt.Fatal("schedule %d: database %d did not reach a gate", sc.ID, t)
+		}
+		emit(vt.Ev{"e": "Step", "t": t, "state": st.State.String(), "at": st.Point, "path": filepath.Base(st.Path)})
+	}
+	for _, t := range sc.Steps {
+		step(t)
+	}
+	for t := 1; t <= sc.N; t++ {
+		for i := 0; i < 64 && s.Where(t).State != gate.Done; i++ {
+			step(t)
+		}
 	}
 }
 
@@ -277,6 +362,8 @@ func main() {
 			runProcs(d, sc, emit)
 		case "free":
 			runFree(d, sc, emit)
+		case "db":
+			runDB(d, sc, emit)
 		default:
 			runThreads(d, sc, emit)
 		}
